@@ -688,6 +688,13 @@ func visitInstr(fr *frame, instr ssa.Instruction) continuation {
 				fr.env[instr] = r.nativeFieldAddr(fr, instr, mv.ptr, fname)
 				break
 			}
+			if nv, ok := (*p).(nativeV); ok {
+				// a native struct VALUE held in an interpreter cell (e.g. the element of a native
+				// slice copied into a loop variable)
+				fname := mustDeref(instr.X.Type()).Underlying().(*types.Struct).Field(instr.Field).Name()
+				fr.env[instr] = r.nativeFieldAddr(fr, instr, nv, fname)
+				break
+			}
 			fr.env[instr] = &(*p).(structure)[instr.Field]
 		case nativeV:
 			fname := mustDeref(instr.X.Type()).Underlying().(*types.Struct).Field(instr.Field).Name()
